@@ -222,6 +222,9 @@ func exportFieldOfDiff(detail string) string { return "state" }
 // HotColdDiff compares the live read interface the API uses on the current state with the cold export.
 func HotColdDiff(n *Node, s *Snap) (string, string) {
 	cs := n.App.CurrentState()
+	if cs == nil {
+		return "hot-no-state", "the node has no current state to serve reads from (nil check state)"
+	}
 	for _, a := range s.Accounts {
 		if got := cs.Accounts().GetNonce(a); got != s.Nonce[a] {
 			return "hot-nonce", fmt.Sprintf("nonce of %s hot %d cold %d", a.String(), got, s.Nonce[a])
@@ -277,7 +280,7 @@ func (m *MonC09) Genesis(w *World) {
 }
 
 func (m *MonC09) report(w *World, class, detail string, h int64) {
-	w.Report("C09", "restart-equivalence", class, fmt.Sprintf("after %d restart(s), last at height %d, block %d: %s", m.restarts, m.lastRestartH, h, detail), h)
+	w.Report("C09", "restart-equivalence", c09class(w, class), fmt.Sprintf("after %d restart(s), last at height %d, block %d: %s", m.restarts, m.lastRestartH, h, detail), h)
 }
 
 func (m *MonC09) AfterBlock(w *World, b *BlockCtx) {
@@ -391,6 +394,10 @@ func init() {
 					n.ValidatorMode = true
 				}
 				flavourGen(r, flavour, g, n)
+				// some chains start at height 1 (Tendermint's default initial height)
+				if chain == 2 && r.Intn(8) == 0 {
+					g.InitialH = 1
+				}
 			})
 			if flavour == 3 {
 				steerPriceWindow(r, sc, false)
@@ -487,7 +494,7 @@ func (m *MonC09Enum) runFrom(w *World, i, j int) bool {
 		res := t.Node.ExecBlock(w.ReqLog[k], nil)
 		if cls, d := CompareBlock(&w.ResLog[k], &res); cls != "" {
 			w.Sc.Params["c09_i"], w.Sc.Params["c09_j"] = int64(i), int64(j)
-			w.Report("C09", "restart-equivalence", cls, fmt.Sprintf("enumeration: restart after block %d%s, block %d: %s", hi, secondRestart(w, i, j), w.ReqLog[k].Height, d), w.ReqLog[k].Height)
+			w.Report("C09", "restart-equivalence", c09class(w, cls), fmt.Sprintf("enumeration: restart after block %d%s, block %d: %s", hi, secondRestart(w, i, j), w.ReqLog[k].Height, d), w.ReqLog[k].Height)
 			return false
 		}
 	}
@@ -499,7 +506,7 @@ func (m *MonC09Enum) runFrom(w *World, i, j int) bool {
 	if ref := w.DiskAt[last]; ref != nil {
 		if cls, d := DiskStateDiff(ref, t.Disk, uint64(last), evh, !w.Sc.Node.ValidatorMode); cls != "" {
 			w.Sc.Params["c09_i"], w.Sc.Params["c09_j"] = int64(i), int64(j)
-			w.Report("C09", "restart-equivalence", "disk-"+cls, fmt.Sprintf("enumeration: restart after block %d%s, at the end (height %d): %s", hi, secondRestart(w, i, j), last, d), last)
+			w.Report("C09", "restart-equivalence", c09class(w, "disk-"+cls), fmt.Sprintf("enumeration: restart after block %d%s, at the end (height %d): %s", hi, secondRestart(w, i, j), last, d), last)
 			return false
 		}
 	}
@@ -583,4 +590,15 @@ func flavourGen(r *rand.Rand, flavour int, g *GenCfg, n *NodeCfg) {
 		g.OldRules = false
 		n.Period = []uint64{6, 6, 8, 12}[r.Intn(4)]
 	}
+}
+
+// c09class marks divergences seen on a chain whose genesis starts at height 1: there the tree version
+// of height h is h+1 and the application DB's start height 0 cannot be told from "no chain yet", so a
+// restarted node has no state until the next BeginBlock and then loads the state of height h-1 (a
+// listed known finding). Every other chain keeps the plain class.
+func c09class(w *World, class string) string {
+	if w.Sc.InitialH == 1 {
+		return "initial-height-1:" + class
+	}
+	return class
 }
